@@ -484,7 +484,8 @@ def _(p):
 def _(p):
     from formulaic.transforms import center, poly, scale
 
-    x = numpy.array(p["x"], dtype=float)
+    x = numpy.array(p["x"], dtype=p.get("dtype", "float64"))
+    p = {**p, "x": [int(v) if x.dtype.kind in "iub" else float(v) for v in x]}  # the values the vector really holds
     n, ddof = len(x), p["ddof"]
     st = {}
     out = numpy.asarray(scale(x, ddof=ddof, _state=st), dtype=float)
